@@ -17,6 +17,7 @@ from zope.interface.interface import InterfaceClass
 job = childlib.job()
 evaluations = 0
 mismatches = []
+audits = [0]
 HOOK = {'armed': False, 'count': 0, 'at': None, 'do': None}
 
 
@@ -36,7 +37,28 @@ class HookedMap(dict):
         return dict.get(self, key, default)
 
 
-def hook_point():
+AUDIT = {'on': False, 'lookup': None, 'events': []}
+
+
+def container_refs():
+    """reference count of the (single) cache dictionary of the C lookup
+    object, or None when it cannot be told apart"""
+    import gc
+    import sys
+    lk = AUDIT['lookup']
+    known = [getattr(lk, '_required', None), getattr(lk, '_extendors', None),
+             getattr(lk, '__dict__', None)]
+    cands = [d for d in gc.get_referents(lk)
+             if type(d) is dict and '_registry' not in d and
+             all(d is not k for k in known)]
+    if len(cands) != 1:
+        return None
+    return sys.getrefcount(cands[0])
+
+
+def hook_point(kind='get'):
+    if HOOK['armed'] and AUDIT['on']:
+        AUDIT['events'].append((kind, container_refs()))
     if HOOK['armed']:
         HOOK['count'] += 1
         if HOOK['count'] == HOOK['at']:
@@ -51,7 +73,7 @@ class HookedInterface(InterfaceClass):
     is then a point where other code runs)"""
 
     def __hash__(self):
-        hook_point()
+        hook_point('hash')
         return InterfaceClass.__hash__(self)
 
 
@@ -133,11 +155,27 @@ def run_case(case):
     # dry run: how many container accesses does the walk make?
     w = World(case)
     HOOK.update(armed=True, count=0, at=None, do=None)
+    AUDIT.update(on=(impl == 'c'), lookup=w.reg._v_lookup, events=[])
     try:
         got = w.ask()
     finally:
         HOOK['armed'] = False
+        AUDIT['on'] = False
     n = HOOK['count']
+    # ownership audit (C): the first event of a lookup whose provided key
+    # hashes through Python code is the hashing INTO the top-level cache
+    # dictionary; the frame must hold that dictionary itself then (one
+    # reference more than during the walk, when only the lookup object
+    # holds it), or a changed() run by the hash frees it under the frame
+    ev = AUDIT['events']
+    if ev and ev[0][0] == 'hash' and ev[0][1] is not None:
+        walk = [r for k, r in ev if k == 'get' and r is not None]
+        if walk:
+            audits[0] += 1
+            if ev[0][1] < walk[0] + 1:
+                mism(ctx, 'ownership of the cache dictionary while the '
+                     'provided key is hashed into it (references held, '
+                     'relative to the walk)', walk[0] + 1, ev[0][1])
     evaluations += 1
     if got != case['before']:
         mism(ctx, 'uninterrupted answer', case['before'], got)
@@ -174,4 +212,5 @@ for childlib.CASE[0], case in enumerate(job['cases']):
     if len(mismatches) >= 40:
         break
 
-childlib.done({'evaluations': evaluations, 'mismatches': mismatches})
+childlib.done({'evaluations': evaluations, 'mismatches': mismatches,
+               'audits': audits[0]})
